@@ -323,17 +323,16 @@ def warm_sweep(ctx: Ctx, rng: random.Random, key_of) -> int:
                                      "turns": [[first, k], [other, 10 ** 6], [first, 10 ** 6]]})
                         meta.append((ia, ib, w, k, first))
     res = thr_jobs(ctx, jobs, "warmlines")
-    runs = 0
-    for (ia, ib, w, k, first), r in zip(meta, res):
-        if r["stuck"]:
-            continue
-        runs += 1
-        outs = [canon(o) for o in r["outs"]]
-        if outs != [want[ia], want[len(A) + ib]]:
-            ctx.violate("call-differs-from-solo", {"clause": "call-differs-from-solo", "granularity": "line",
-                                                   "after_history_of": w, "op": A[ia]["op"] + "+" + B[ib]["op"]},
-                        {"calls": [A[ia], B[ib]], "warm_distinct": w, "split": k, "first": first, "outs": outs,
-                         "solo": [want[ia], want[len(A) + ib]]})
+    runs = sum(1 for r in res if not r["stuck"])
+    wevents = [{"i": n, "group": -1, "order": [], "init": [], "log": [], "stuck": bool(r["stuck"]), "racy": False,
+                "outs": [canon(o) for o in r["outs"]], "solo": [want[ia], want[len(A) + ib]]}
+               for n, ((ia, ib, w, k, first), r) in enumerate(zip(meta, res))]
+    for e, clause, _ in calls.validate(ctx, "TraceThreads", wevents, {}, "thrwarm", per_shard=4000):
+        ia, ib, w, k, first = meta[e["i"]]
+        ctx.violate(clause, {"clause": clause, "granularity": "line", "after_history_of": w,
+                             "op": A[ia]["op"] + "+" + B[ib]["op"]},
+                    {"calls": [A[ia], B[ib]], "warm_distinct": w, "split": k, "first": first, "outs": e["outs"],
+                     "solo": e["solo"]})
     ctx.evaluations += len(jobs)
     ctx.coverage["line_level_runs_after_history"] = runs
     return runs
@@ -451,17 +450,16 @@ def run(ctx: Ctx) -> dict:
                 ljobs.append({"mode": "lines", "calls": [callsl[a], callsl[b]], "turns": turns})
                 lmeta.append(((a, b), turns))
     lres = thr_jobs(ctx, ljobs, "lines")
-    line_runs = 0
-    for ((a, b), turns), r in zip(lmeta, lres):
-        if r["stuck"]:
-            continue
-        line_runs += 1
-        outs = [canon(o) for o in r["outs"]]
-        want = [solo_out[a], solo_out[b]]
-        if outs != want:
-            g = {"calls": [a, b]}
-            ctx.violate("call-differs-from-solo", dict(key_of(callsl, g), granularity="line"),
-                        {"calls": [callsl[a], callsl[b]], "turns": turns, "outs": outs, "solo": want})
+    line_runs = sum(1 for r in lres if not r["stuck"])
+    # the verdict on every line-level run is the specification's too (JudgeThreads!RunOutcome; these runs
+    # carry no access log, so it is the clause "every call gives its solo outcome" that is evaluated)
+    levents = [{"i": n, "group": -1, "order": [], "init": [], "log": [], "stuck": bool(r["stuck"]), "racy": False,
+                "outs": [canon(o) for o in r["outs"]], "solo": [solo_out[a], solo_out[b]]}
+               for n, (((a, b), turns), r) in enumerate(zip(lmeta, lres))]
+    for e, clause, _ in calls.validate(ctx, "TraceThreads", levents, {}, "thrlines", per_shard=4000):
+        (a, b), turns = lmeta[e["i"]]
+        ctx.violate(clause, dict(key_of(callsl, {"calls": [a, b]}), granularity="line"),
+                    {"calls": [callsl[a], callsl[b]], "turns": turns, "outs": e["outs"], "solo": e["solo"]})
     ctx.evaluations += len(ljobs)
     line_runs += warm_sweep(ctx, rng, key_of)
     n_racy = len(racy)
